@@ -65,7 +65,10 @@ fn parse_cfg_if_inner<'a>(
         {
             let item = match parser.parse_item(ForceCollect::No) {
                 Ok(Some(item_ptr)) => item_ptr.into_inner(),
-                Ok(None) => continue,
+                // Not an item and the parser did not advance: give up instead of spinning.
+                Ok(None) => {
+                    return Err("Expected item inside cfg_if block, but found something else");
+                }
                 Err(err) => {
                     err.cancel();
                     parser.psess.dcx().reset_err_count();
